@@ -52,9 +52,10 @@ CXXFLAGS_asan := -O1 -g -fsanitize=address -fno-omit-frame-pointer
 
 $(eval $(call ENGINE,c09_stream,asan,asan))
 $(eval $(call ENGINE,c09_stream,plain,plain))
+$(eval $(call ENGINE,c09_stream,plainO0,plain))
 
 .PHONY: c09
-c09: $(B)/bin/c09_stream_asan $(B)/bin/c09_stream_plain
+c09: $(B)/bin/c09_stream_asan $(B)/bin/c09_stream_plain $(B)/bin/c09_stream_plainO0
 
 EDEFS_c20_oom_plain := -DC20_VARIANT='"mmap"'
 EDEFS_c20_oom_asan := -DC20_VARIANT='"mmap"'
@@ -68,24 +69,29 @@ $(eval $(call ENGINE,c20_oom,plain_pma,plain))
 $(eval $(call ENGINE,c20_oom,asan_pma,asan))
 $(eval $(call ENGINE,c20_oom,plain_malloc,plain))
 $(eval $(call ENGINE,c20_oom,asan_malloc,asan))
+EDEFS_c20_oom_plainO0 := -DC20_VARIANT='"mmap"'
+$(eval $(call ENGINE,c20_oom,plainO0,plain))
 .PHONY: c20
-c20: $(foreach v,plain asan plain_pma asan_pma plain_malloc asan_malloc,$(B)/bin/c20_oom_$(v))
+c20: $(foreach v,plain asan plain_pma asan_pma plain_malloc asan_malloc plainO0,$(B)/bin/c20_oom_$(v))
 
 $(B)/gen/keygens.inc: mk/gen_keygens.py $(wildcard $(SRC)/include/sodium/*.h)
 	@mkdir -p $(dir $@)
 	@python3 mk/gen_keygens.py $(SRC)/include/sodium > $@.tmp && mv $@.tmp $@
-$(B)/obj/asan/c18_rng.o $(B)/obj/plain/c18_rng.o: $(B)/gen/keygens.inc
+$(B)/obj/asan/c18_rng.o $(B)/obj/plain/c18_rng.o $(B)/obj/plainO0/c18_rng.o: $(B)/gen/keygens.inc
 $(eval $(call ENGINE,c18_rng,plain,plain))
 $(eval $(call ENGINE,c18_rng,asan,asan))
+$(eval $(call ENGINE,c18_rng,plainO0,plain))
 .PHONY: c18
-c18: $(B)/bin/c18_rng_plain $(B)/bin/c18_rng_asan
+c18: $(B)/bin/c18_rng_plain $(B)/bin/c18_rng_asan $(B)/bin/c18_rng_plainO0
 
 EDEFS_c17_guard_plain := -DC17_VARIANT='"mmap"'
 EDEFS_c17_guard_plain_pma := -DC17_VARIANT='"posix_memalign"'
 $(eval $(call ENGINE,c17_guard,plain,plain))
 $(eval $(call ENGINE,c17_guard,plain_pma,plain))
+EDEFS_c17_guard_plainO0 := -DC17_VARIANT='"mmap"'
+$(eval $(call ENGINE,c17_guard,plainO0,plain))
 .PHONY: c17
-c17: $(B)/bin/c17_guard_plain $(B)/bin/c17_guard_plain_pma
+c17: $(B)/bin/c17_guard_plain $(B)/bin/c17_guard_plain_pma $(B)/bin/c17_guard_plainO0
 
 # ---------------- C19: TSan-instrumented libsodium + our own runtime ----------------
 C19_WRAP := $(WRAP_LDFLAGS) -Wl,--wrap=memcpy -Wl,--wrap=memmove -Wl,--wrap=memset -Wl,--wrap=explicit_bzero
